@@ -38,6 +38,10 @@ def tlc_to_harness(ctx, d, binary, mode, args, tlc_kwargs, prefix='"['):
     summ = [x for x in recs if x.get("k") == "summary"]
     if not summ:
         raise vlib.Inconclusive("harness mode %s gave no summary (rc=%s): %s" % (mode, hp.returncode, "".join(out_lines)[-2000:]))
+    errs = [x for x in recs if x.get("k") == "error"]
+    if errs:
+        raise vlib.Inconclusive("harness errors: %s" % errs[:3])
     if summ[-1].get("n", 0) != sent[0]:
-        raise vlib.Inconclusive("harness consumed %s of %d behaviours" % (summ[-1].get("n"), sent[0]))
+        junk = [l for l in out_lines if not l.startswith("VH ")]
+        raise vlib.Inconclusive("harness consumed %s of %d behaviours; output: %s" % (summ[-1].get("n"), sent[0], "".join(junk)[-3000:]))
     return res, recs, summ[-1]
